@@ -67,12 +67,19 @@ def run(prop, tier, replay=None):
     if mc["violated"]:
         path = vlib.save_replay(prop, "model_" + mc["violated"], dict(kind="model", invariant=mc["violated"], tlc_tail=mc["out"][-6000:]))
         violations.append(("model invariant %s violated" % mc["violated"], path))
-    replay_proc = None
+    replay_proc, replay_fs = None, []
     if replay:
         with open(replay) as f:
             rp = json.load(f)
         if rp.get("kind") == "proc-trace":
             replay_proc, scripts = rp["script"], []
+        elif rp.get("kind") == "fsreal-trace":
+            import fsrealcheck
+            fviol, _, _ = fsrealcheck.run(prop, tier, rng, only=rp["script"])
+            replay_fs = fviol
+            scripts = []
+        elif rp.get("kind") == "model":
+            scripts = []
         else:
             scripts = [rp["script"]]
     else:
@@ -82,6 +89,7 @@ def run(prop, tier, replay=None):
             with open(reg) as f:
                 scripts += [json.loads(ln) for ln in f if ln.strip()]
     by_id = {s["id"]: s for s in scripts}
+    violations += replay_fs
     tp = run_driver(scripts, "drv_" + prop)
     acc, rej, stats, total = vlib.validate_traces(tr_module, cfg, tp, "val_" + prop, shards=12)
     for r in rej:
